@@ -21,7 +21,9 @@ META = {
                   "applied through the guarded hook in store.c, which is the allocator of the interpreter and -- built with FOAM_RTS -- of "
                   "compiled programs; freed storage is poisoned (0xDD fill). Each run must print exactly the output TLC derived from the "
                   "language specification for that program, so a block reclaimed while still in use shows as a wrong result or a fault "
-                  "instead of going unnoticed between two runs of the same binary.",
+                  "instead of going unnoticed between two runs of the same binary. Interactive sessions (aldor -gloop): the plain "
+                  "histories Repl.tla exports for generated programs and a fixed deep-recursion session are run with collections requested "
+                  "(`#int gc`) after the steps a schedule i mod k = j selects; the session must print the specified output under every schedule.",
     "level_note": "Trusted: AldorSem.tla, renderer, gcc, libaxllib.a. The H2 allocator event trace of program runs is not validated here "
                   "(the allocator invariants are bound in C10 where the roots are known). Interpreter schedules use larger k because each "
                   "collection scans the whole compiler heap.",
